@@ -454,6 +454,10 @@ func (index *PatternIndex) searchPairs(ctx *Context, pairs []piPair) (StringSet,
 				return nil, err
 			}
 			ids.AddAll(more)
+			// A pattern whose value here is an empty map (or a map
+			// holding only empty arrays) is stored at the map node
+			// itself.
+			ids.AddAll(mi.Ids)
 			next = append(next, mi)
 		}
 
@@ -501,7 +505,15 @@ func (index *PatternIndex) searchPairs(ctx *Context, pairs []piPair) (StringSet,
 
 // SearchPatternsMap searchs the index for patterns that match the given fact (or event).
 func (index *PatternIndex) SearchPatternsMap(ctx *Context, fact map[string]interface{}) (StringSet, error) {
-	return index.searchPairs(ctx, mapToPairs(ctx, fact))
+	ids, err := index.searchPairs(ctx, mapToPairs(ctx, fact))
+	if err != nil {
+		return nil, err
+	}
+	// Patterns with no indexable structure at the top level (the
+	// empty pattern, or only empty arrays) are stored at the root
+	// and are candidates for every input.
+	ids.AddAll(index.Ids)
+	return ids, nil
 }
 
 // AddPatternJSON adds the given pattern (as a map) to the index.
